@@ -1,10 +1,12 @@
 use rusty_common::{AtPos, Position};
-use rusty_parser::{AsBareName, BareName, Expression, ExpressionType, Expressions, Name};
+use rusty_parser::{
+    AsBareName, BareName, Expression, ExpressionType, Expressions, Name, TypeQualifier,
+};
 
 use crate::converter::common::{ConvertibleIn, ExprContext, ExprContextPos};
 use crate::converter::expr_rules::qualify_name::*;
 use crate::core::{
-    IntoQualified, IntoTypeQualifier, LintError, LintErrorPos, LintResult, LinterContext,
+    CanCastTo, IntoQualified, IntoTypeQualifier, LintError, LintErrorPos, LintResult, LinterContext,
     VariableInfo,
 };
 
@@ -113,6 +115,12 @@ impl FuncResolve for ExistingArrayWithParenthesis {
     ) -> Result<Expression, LintErrorPos> {
         // convert args
         let converted_args = args.convert_in(ctx, extra.element)?;
+        // subscripts must be numeric
+        for converted_arg in &converted_args {
+            if !converted_arg.can_cast_to(&TypeQualifier::PercentInteger) {
+                return Err(LintError::TypeMismatch.at(converted_arg));
+            }
+        }
         // convert name
         let VariableInfo {
             expression_type, ..
